@@ -45,6 +45,7 @@ fn main() {
         "mc" => mc::run(rest),
         "extras" => extra::run(rest),
         "typeck" => extra::run_typeck(rest),
+        "sigorder" => extra::run_sigorder(rest),
         "enc" => mc::run_enc(rest),
         "cli" => mc::run_cli(rest),
         other => {
